@@ -7,6 +7,7 @@ from . import common as C
 from . import proggen as G
 from . import execchecks as E
 from . import optchecks as O
+from . import scripted as S
 
 
 def templates():
@@ -26,6 +27,8 @@ def templates():
 
 def gen_cases(rng, n):
     cases = templates()
+    for _ in range(max(40, n)):
+        cases.append(("scripted", S.scripted(rng), rng.choice(["", "xy", "A\nB\n", "q"])))
     for _ in range(n):
         cases.append(("random", G.render(G.gen_program(rng)), G.gen_stdin(rng)))
     return cases
@@ -128,7 +131,7 @@ def run(prop, tier, seed):
     fails = []
     for (k, lv), (st, msg, res) in zip(jobs, results):
         tag, prog, stdin = cases[k]
-        hist[tag if tag == "random" else "template"] += 1
+        hist[tag if tag in ("random", "scripted") else "template"] += 1
         hist["level%d" % lv] += 1
         if len(prog) > 6:
             distinct.add((prog, stdin, lv))
